@@ -80,7 +80,7 @@ def raw_quantities(B, dc, sname="main"):
 
 def check(case, ctx):
     spB = copy.deepcopy(case["spec"])
-    if any(c04.degenerate(c) for c in spB.get("constraints", [])):
+    if any(c04.degenerate(c, {d["name"] for d in spB["params"]}) for c in spB.get("constraints", [])):
         ctx.count("relation_collapses_symbolically")
         return []
     m = spB["method"]
